@@ -2,6 +2,7 @@ package main
 
 import (
 	"fmt"
+	"go/types"
 	"strings"
 
 	"golang.org/x/tools/go/ssa"
@@ -69,10 +70,16 @@ func runC15(r *Run, p *Prog) {
 	if len(refresh) == 0 {
 		r.Unresolved("I1", "deadline refresh (SetDeadline on the Service's listener)")
 	}
+	// in a serving function's inlined view the refresh is the SetDeadline call itself (whether written in the loop
+	// or in a helper); a call of a refresh function that was not inlined counts as well
 	isRefresh := func(in ssa.Instruction) bool {
 		c, ok := in.(*ssa.Call)
 		if !ok {
 			return false
+		}
+		if c.Call.IsInvoke() && c.Call.Method.Name() == "SetDeadline" {
+			recv := strip(T.T(c.Call.Value))
+			return strings.Contains(recv, ".listener") || isNamed(c.Call.Value.Type(), "net", "Listener")
 		}
 		t := staticTarget(&c.Call)
 		return t != nil && refresh[t]
@@ -119,7 +126,7 @@ func runC15(r *Run, p *Prog) {
 					fs := T.FactsAt(b)
 					argOK := false
 					for _, a := range c.Call.Args {
-						if T.T(a) == toParam {
+						if at := strip(T.T(a)); at == toParam || strings.HasPrefix(at, "call:time.Time.Add(call:time.Now()") && strings.HasSuffix(at, ","+toParam+")") {
 							argOK = true
 						}
 					}
@@ -140,7 +147,9 @@ func runC15(r *Run, p *Prog) {
 			// every path to Accept that crossed timeout != 0 ... passes a refresh after its last Accept:
 			// (a) from entry, (b) from Accept itself (loop)
 			for _, from := range []ssa.Instruction{nil, sf.Accept} {
-				reach, w := reachInstr(sf.Fn, from, isAccept, isRefresh, func(a, b *ssa.BasicBlock) bool { return toFact(T.edgeFactsOn(a, b), false) })
+				reach, w := reachInstr(sf.Fn, from, isAccept, isRefresh, func(a, b *ssa.BasicBlock) bool {
+					return toFact(T.edgeFactsOn(a, b), false) || noDeadlineSupportEdge(a, b)
+				})
 				what := "from entry"
 				if from != nil {
 					what = "around the loop"
@@ -380,7 +389,7 @@ func runC15(r *Run, p *Prog) {
 			r.Ob("I4", shortName(h), "counter -1 exactly once on every path through the handler", h.Pos(), lo == 1 && hi == 1,
 				fmt.Sprintf("between %d and %d decrements: once the last connection has ended the counter is not back at zero, so the next expiry does not stop the service (or stops it early)", lo, hi))
 		}
-		S := fnSet(ro.Serving)
+		S := ro.servingSide()
 		H := cg.Reach(keysOf(hs), false)
 		for _, f := range p.FuncsOf(pkgVarlink) {
 			for _, b := range f.Blocks {
@@ -398,4 +407,36 @@ func runC15(r *Run, p *Prog) {
 			}
 		}
 	})
+}
+
+// noDeadlineSupportEdge: the edge on which the listener turned out not to have a SetDeadline method (`l, ok :=
+// listener.(interface{ SetDeadline(time.Time) error })` with ok false, or the default arm of the equivalent type switch).
+// The listeners this package creates (unix, tcp, inherited socket) all have one; for any other listener there is no
+// deadline to refresh. Stated as an assumption in the evidence.
+func noDeadlineSupportEdge(a, b *ssa.BasicBlock) bool {
+	if len(a.Instrs) == 0 || len(a.Succs) != 2 || a.Succs[1] != b {
+		return false
+	}
+	ifi, ok := a.Instrs[len(a.Instrs)-1].(*ssa.If)
+	if !ok {
+		return false
+	}
+	ex, ok := ifi.Cond.(*ssa.Extract)
+	if !ok || ex.Index != 1 {
+		return false
+	}
+	ta, ok := ex.Tuple.(*ssa.TypeAssert)
+	if !ok || !ta.CommaOk {
+		return false
+	}
+	it, ok := ta.AssertedType.Underlying().(*types.Interface)
+	if !ok {
+		return false
+	}
+	for i := 0; i < it.NumMethods(); i++ {
+		if it.Method(i).Name() == "SetDeadline" {
+			return true
+		}
+	}
+	return false
 }
